@@ -58,6 +58,7 @@
 use std::borrow::Cow;
 use std::cmp::min;
 
+use rustc_ast::util::parser::ExprPrecedence;
 use rustc_ast::{ast, ptr};
 use rustc_span::{BytePos, Span, symbol};
 use tracing::debug;
@@ -276,7 +277,10 @@ impl ChainItemKind {
                 return (
                     ChainItemKind::Parent {
                         expr: expr.clone(),
-                        parens: is_method_call_receiver && should_add_parens(expr, context),
+                        // The operand of a `try!(..)` that became `?` can be any expression:
+                        // `try!(a + b)` is `(a + b)?`, not `a + b?`.
+                        parens: (is_method_call_receiver && should_add_parens(expr, context))
+                            || expr.precedence() < ExprPrecedence::Unambiguous,
                     },
                     expr.span,
                 );
